@@ -96,6 +96,19 @@ DurableFirst(cfg, s, e) ==
 ReadOnlyFirst(cfg, s, e) ==
     Publishes(cfg, e) => LET i == Lookup(s.fs, e.path) IN i \in DOMAIN s.fs.inos => ~Writable(s.fs.inos[i].mode)
 
+\* ---- C04 (step form, = Kismet!StepRegister on real executions): the inode bound under a key name is replaced only
+\* by the rename of an overwriting operation (set / set_temp_file / get_or_update(Replace)); insert-if-absent
+\* operations (put, put_temp_file, ensure, promotion) never change an existing binding.
+Rebinds(cfg, s, s2) ==
+    {<<d, n>> \in UNION {{<<d, n>> : n \in DOMAIN s.fs.ents[d]} : d \in {x \in DOMAIN s.fs.ents : IsCacheDir(cfg, x)}} :
+        /\ IsKeyName(n) /\ s.fs.ents[d][n] # "DIR"
+        /\ d \in DOMAIN s2.fs.ents /\ n \in DOMAIN s2.fs.ents[d] /\ s2.fs.ents[d][n] # s.fs.ents[d][n]}
+PutNeverReplaces(cfg, s, e, s2) ==
+    e.e = "sys" /\ e.ph \in {"lib", "cb"} /\ Rebinds(cfg, s, s2) # {} =>
+        /\ e.call = "rename"
+        /\ e.api \in {"set", "set_tf", "gou"}
+        /\ (e.api = "gou" => e.p \in DOMAIN s.cur /\ Has(s.cur[e.p], "judge") /\ s.cur[e.p].judge = "replace")
+
 \* ---- C05: no error, no panic (runs of this property inject nothing and use valid names)
 NoErr(e) == e.e = "ret" /\ ~(Has(e, "world") /\ e.world) => e.ok /\ ~e.panic
 
@@ -288,6 +301,49 @@ StackObs(cfg, s, r, e) ==
 StackOK(cfg, s, e) ==
     e.e = "obs" /\ Has(cfg, "sw") /\ e.p = 1 /\ e.p \in DOMAIN s.lastret =>
         ObservedOK(cfg.sw, StackObs(cfg, s, s.lastret[e.p], e))
+
+\* ---- C09 / C11: sequential histories against the abstract key-value map and queue
+\* (monitors for runs in which one participant at a time operates: cfg.seq)
+KeyDirs(cfg, fs, k) == {d \in DOMAIN fs.ents : IsWCacheDir(cfg, d) /\ k \in DOMAIN fs.ents[d] /\ fs.ents[d][k] # "DIR"}
+KeyIno(cfg, fs, k) == LET d == CHOOSE x \in KeyDirs(cfg, fs, k) : TRUE IN fs.inos[fs.ents[d][k]]
+PresentKeys(cfg, fs) == UNION {{n \in DOMAIN fs.ents[d] : IsKeyName(n) /\ fs.ents[d][n] # "DIR"} : d \in {x \in DOMAIN fs.ents : IsWCacheDir(cfg, x)}}
+\* C11: a sharded cache never holds two copies of one key
+OneCopy(cfg, s) == \A k \in PresentKeys(cfg, s.fs) : Cardinality(KeyDirs(cfg, s.fs, k)) <= 1
+\* C11: lookups return what the simple map predicts
+SeqMapOK(cfg, s, e) ==
+    e.e = "obs" /\ e.p \in DOMAIN s.cur /\ Has(s.cur[e.p], "key") /\ e.api \in {"get", "touch"} /\ Get(s.lastok, e.p, FALSE) =>
+        LET k == s.cur[e.p].key r == s.lastret[e.p] IN
+        IF k \in DOMAIN s.absmap THEN
+            IF e.api = "get" THEN r.res = "some" /\ Has(e, "handle") /\ Has(e.handle.c, "val") /\ e.handle.c.val = s.absmap[k]
+            ELSE r.res = "true"
+        ELSE IF Has(cfg, "rokeys") /\ k \in SeqSet(cfg.rokeys) THEN TRUE
+        ELSE r.res \in {"none", "false"}
+\* C11: an entry disappears only in an operation that ran maintenance (whose choice PruneOK judges)
+UnexplainedLoss(cfg, s, e, s2) ==
+    e.e = "ret" /\ ~(Has(e, "world") /\ e.world) =>
+        \A k \in DOMAIN s.absmap : k \notin PresentKeys(cfg, s.fs) => Get(s.pruned, e.p, FALSE)
+\* C11: a successful set / put consumes its source
+SrcConsumed(e) == e.e = "ret" /\ e.ok /\ e.api \in {"set", "put"} /\ Has(e, "src_exists") => ~e.src_exists
+\* C09: reads mark without reordering; writes enqueue fresh
+Marked(i) == TLe(i.mt, i.at)
+ReadMarks(cfg, s, e) ==
+    e.e = "ret" /\ e.ok /\ e.p \in DOMAIN s.cur /\ Has(s.cur[e.p], "key") /\ e.p \in DOMAIN s.atcall =>
+        LET k == s.cur[e.p].key pre == s.atcall[e.p]
+            hitop == (e.api = "get" /\ e.res = "some") \/ (e.api = "touch" /\ e.res = "true")
+                     \/ (e.api \in {"put", "put_tf"} /\ KeyDirs(cfg, pre, k) # {})
+        IN hitop /\ KeyDirs(cfg, pre, k) # {} /\ KeyDirs(cfg, s.fs, k) # {} /\ ~Get(s.pruned, e.p, FALSE) =>
+            LET a == KeyIno(cfg, pre, k) b == KeyIno(cfg, s.fs, k) IN
+            /\ Marked(b)                                  \* the next maintenance sees it as recently used
+            /\ b.mt = a.mt /\ b.c = a.c /\ b.mode = a.mode  \* queue position and content unchanged
+FreshOnWrite(cfg, s, e) ==
+    e.e = "ret" /\ e.ok /\ e.p \in DOMAIN s.cur /\ Has(s.cur[e.p], "key") /\ e.p \in DOMAIN s.atcall =>
+        LET k == s.cur[e.p].key pre == s.atcall[e.p]
+            inserts == e.api \in {"set", "set_tf"} \/ (e.api \in {"put", "put_tf"} /\ KeyDirs(cfg, pre, k) = {})
+        IN inserts /\ KeyDirs(cfg, s.fs, k) # {} =>
+            LET d == CHOOSE x \in KeyDirs(cfg, s.fs, k) : TRUE
+                b == KeyIno(cfg, s.fs, k) IN
+            /\ ~Marked(b)                                                                     \* not marked as used
+            /\ \A n \in EntryNames(s.fs, d) : TLe(InoAt(s.fs, d, n).mt, b.mt)                \* newest queue position
 
 \* ---- C19: modes
 Mode0444(cfg, s, e) ==
